@@ -13,6 +13,19 @@ PS = "/sys/class/power_supply"
 CPU = "/sys/devices/system/cpu"
 
 FAULTS = ("absent", "EACCES", "EIO", "ENODEV", "ENXIO", "garbage")
+def cpulist(nums):
+    """Kernel cpulist format: "0-3", "0,4", "0-1,8-9"."""
+    out = []
+    i = 0
+    while i < len(nums):
+        j = i
+        while j + 1 < len(nums) and nums[j + 1] == nums[j] + 1:
+            j += 1
+        out.append("%d" % nums[i] if i == j else "%d-%d" % (nums[i], nums[j]))
+        i = j + 1
+    return ",".join(out)
+
+
 SUBJECTS = ("temps", "temps_f", "fans", "battery", "cpu_freq",
             "cpu_freq_percpu", "cpu_count", "cpu_count_cores", "cpu_stats",
             "boot_time", "boot_time_history")
@@ -203,9 +216,19 @@ class SysFs(EngineBase):
                 c // 2, 2))
         topo = rng.choice(["core_cpus_list", "thread_siblings_list", "none"])
         if topo != "none":
-            for c in ids:
-                files["%s/cpu%d/topology/%s" % (CPU, c, topo)] = \
-                    "%d-%d\n" % (c - c % 2, c - c % 2 + 1)
+            # hardware threads per core: 1, 2, 4 (POWER, Xeon Phi) or 8;
+            # siblings numbered contiguously ("0-3") or interleaved ("0,4")
+            smt = rng.choice([1, 2, 2, 2, 4, 8])
+            inter = rng.random() < 0.4
+            ncores = max(1, -(-len(ids) // smt))
+            groups = {}
+            for i, c in enumerate(ids):
+                groups.setdefault(i % ncores if inter else i // smt,
+                                  []).append(c)
+            for g in groups.values():
+                txt = cpulist(sorted(g)) + "\n"
+                for c in g:
+                    files["%s/cpu%d/topology/%s" % (CPU, c, topo)] = txt
         world = {"files": files, "cpuinfo": "".join(cpuinfo),
                  "sysconf_fail": rng.choice([[], [], ["SC_NPROCESSORS_ONLN"]]),
                  # configured-but-offline CPUs (sysconf CONF > ONLN)
@@ -578,6 +601,13 @@ class SysFs(EngineBase):
                                                "cpu_freq_percpu"):
                 V("C19.exact", tags + [type(out[1]).__name__], subject,
                   "%s raised %r on a fault-free tree" % (subject, out[1]))
+            elif not fault and self.ref_cpu_freq(
+                    norm, meta, W.boot, plan["world"]) != "NOT_JUDGED":
+                # every CPU's files are there (or the CPU is marked offline,
+                # which reads as zeroes): nothing to give up on
+                V("C19.exact", tags + [type(out[1]).__name__], subject,
+                  "%s raised %r on a tree where every listed CPU has its "
+                  "frequency files or is offline" % (subject, out[1]))
             return res
         val = out[1]
         if not promised:
